@@ -705,8 +705,16 @@ class ImplOracle:
         return [self.cache[m] for m in msgs]
     def hash(self, m): return self.hash_many([m])[0]
 
+def _hmac_source(ctx):
+    """TJ.Props.C12Gen: the terms REGENERATED from src/tinyjambu-hmac.c (hmac, hmac_init, hmac_set_key, hmac_update, hmac_finalize) over the regenerated hash compute RFC 2104 HMAC"""
+    import taint
+    ok, stats = taint.regenerate(ctx, ('TJ.Props.C12Gen',))
+    ctx.extra_cov['minic'] = {k: stats.get(k) for k in ('functions', 'translated', 'errors', 'build_ok')}
+    if stats.get('errors'): ctx.broken_proofs.append('tools/c2lean.py cannot translate the current sources: ' + '; '.join(stats['errors'][:3]))
+    elif not ok: ctx.broken_proofs.append('TJ.Props.C12Gen (regenerated tinyjambu_hmac and its callees = RFC 2104 over the library hash) no longer checks: ' + re.sub(r'\s+', ' ', stats.get('build_log_tail', ''))[-600:])
+
 def check_C12(ctx):
-    ctx.lean(); ctx.build()
+    ctx.build(); _hmac_source(ctx); ctx.lean(extra_modules=['TJ.Props.C12Gen'])
     ctx.equality_streams.update({'hmac': 'TJ.Props.C12.hmac_rfc2104', 'm.histories': 'TJ.Props.C12.hmac_streaming_rfc2104'})
     g = ctx.g; cases = []
     for kl in list(range(0, 201)):
